@@ -58,12 +58,12 @@ type prepared struct {
 	desc      caseDesc
 	walk      []string // paths in the order a directory walk meets them
 	accepted  []string
-	bad       []string            // accepted but unparseable
+	bad       []string             // accepted but unparseable
 	perFile   map[string][]m.Entry // entries of each parseable accepted file
 	plans     map[string]*m.RoutePlan
 	routes    []string
 	routeOpts map[string]*ach.ValidateOpts // union of the ValidateOpts of the inputs of a route
-	expected  []m.FileSnap // what MergeFilesWith returns over the accepted files
+	expected  []m.FileSnap                 // what MergeFilesWith returns over the accepted files
 	expErr    error
 	hangProne bool // as many unparseable files as workers, and something left to walk after them
 	genErr    error
@@ -248,12 +248,18 @@ func drawCase(r *gen.Rand, idx int) (caseDesc, error) {
 	}
 	// empty directories: free on the real file system; inside an fs.FS only as the last
 	// level of a chain and rarely (MergeDir then reads the OS directory of the same name)
-	if d.Mode == "os" && r.Chance(1, 3) {
-		d.Tree.EmptyDirs = append(d.Tree.EmptyDirs, path.Join(dirs[r.Intn(len(dirs))], "zzempty"))
+	levels := func(dir string) int { // depth of a directory: "." is 0
+		if dir == "." {
+			return 0
+		}
+		return strings.Count(dir, "/") + 1
 	}
-	if d.Mode == "fs" && d.Style == "chain" && d.SubDirs && !d.BadMode && r.Chance(1, 12) {
+	if parent := dirs[r.Intn(len(dirs))]; d.Mode == "os" && levels(parent) < 3 && r.Chance(1, 3) {
+		d.Tree.EmptyDirs = append(d.Tree.EmptyDirs, path.Join(parent, "zzempty"))
+	}
+	if parent := dirs[len(dirs)-1]; d.Mode == "fs" && d.Style == "chain" && levels(parent) < 3 && d.SubDirs && !d.BadMode && r.Chance(1, 8) {
 		d.EmptySubFS = true
-		d.Tree.EmptyDirs = append(d.Tree.EmptyDirs, path.Join(dirs[len(dirs)-1], "zzq_verif_c10_empty"))
+		d.Tree.EmptyDirs = append(d.Tree.EmptyDirs, path.Join(parent, "zzq_verif_c10_empty"))
 	}
 	if d.Mode == "fs" && len(d.Tree.Items) == 0 {
 		// an empty directory inside an fs.FS makes MergeDir read the process's working directory: use the OS mode
